@@ -183,6 +183,10 @@ def check_face(case, ctx: Ctx) -> None:
     kinds = case["kinds"]
     data = [make_edge(kinds[i], orig[i], orig[(i + 1) % 4]) for i in range(4)]
     face = cb.Face(orig, data)
+    # a second face made from the same list of edge specifications (as the two faces of a loft usually are): whatever is
+    # done to the first one, its edges stay where they are
+    shift_w = newell_normal(orig) * 0.7 * np.linalg.norm(orig[1] - orig[0])
+    witness = cb.Face(orig + shift_w, data)
     # ground truth: edge kind -> the two original points it connects
     pair_of = {kinds[i]: frozenset((i, (i + 1) % 4)) for i in range(4)}
     nt = False
@@ -280,6 +284,13 @@ def check_face(case, ctx: Ctx) -> None:
                 raise Violation("order-not-rotated", f"{op[0]}: order {ids_before} -> {ids} is not a cyclic shift", ids=ids, **facts)
             if np.linalg.norm(lib_n_after - lib_n_before) > 1e-9:
                 raise Violation("normal-changed", f"Face.normal changed by {op[0]}", ids=ids, **facts)
+        w_pts = np.array([p.position for p in witness.points])
+        if w_pts.shape != (4, 3) or np.abs(w_pts - (orig + shift_w)).max() > POS_TOL:
+            raise Violation("other-face-changed", f"{op[0]} on one face moved / re-ordered the points of another face", **facts)
+        w_kinds = [getattr(e, "kind", None) for e in witness.edges]
+        if w_kinds != kinds:
+            raise Violation("other-face-changed", f"{op[0]} on one face re-arranged the edges of another face built from the same "
+                            f"edge list: {kinds} -> {w_kinds}", **facts)
         if target is not None and ids[0] != target:
             raise Violation(
                 "reorient-wrong-start",
@@ -355,7 +366,9 @@ def assembly(draw):
     cells = list(draw(st.permutations(list(range(ncell)))))[:k]
     orient = draw(st.lists(_rot, min_size=k, max_size=k))
     return {"dims": list(dims), "widths": widths, "jitter": jit, "cells": cells, "orient": orient, "chops": [],
-            "offset": draw(_off), "target": draw(st.integers(0, k - 1))}
+            "offset": draw(_off), "target": draw(st.integers(0, k - 1)),
+            # how the target's two faces get their edge specification: no argument / one list each / one list for both
+            "ctor": draw(st.sampled_from(["shared-list", "no-edges", "own-lists"]))}
 
 
 _curve = st.tuples(st.sampled_from(CURVES), st.floats(0.0, 2 * math.pi), st.floats(0.15, 0.3)).map(list)
@@ -535,10 +548,27 @@ def check_op(case, ctx: Ctx) -> None:
         for ax in range(3):
             op.chop(ax, count=2)
     t = case["target"]
-    op = built.ops[t]
     pts = built.points[t]
+    ctor = case.get("ctor", "no-edges")
+    if ctor != "no-edges":
+        spec: List[Any] = [None, None, None, None]
+        try:
+            if ctor == "shared-list":
+                new = cb.Loft(cb.Face(pts[:4], spec), cb.Face(pts[4:], spec))
+            else:
+                new = cb.Loft(cb.Face(pts[:4], list(spec)), cb.Face(pts[4:], list(spec)))
+        except Exception as ex:
+            raise Violation("call-raised", f"Loft of two faces with edges=[None]*4 raised {type(ex).__name__}: {ex}", ctor=ctor) from None
+        for ax in range(3):
+            new.chop(ax, count=2)
+        built.ops[t] = new
+        built.mesh = cb.Mesh()
+        for o in built.ops:
+            built.mesh.add(o)
+    op = built.ops[t]
     calls = case["calls"]
-    facts: Dict[str, Any] = {"calls": [c[0] for c in calls], "blocks": len(built.ops), "rot": case["orient"][t]}
+    facts: Dict[str, Any] = {"calls": [c[0] for c in calls], "blocks": len(built.ops), "rot": case["orient"][t], "ctor": ctor}
+    ctx.label("ctor=" + ctor)
     model = apply_calls(op, pts, calls, facts)
 
     # API view: patches that touch each corner
@@ -737,6 +767,7 @@ def _fixed_op_cases() -> List[dict]:
         for f in ("bottom", "top"):
             calls.append(["face_add_edge", f, i, "spline", 1.0, 0.2])
     cases = [{**geo, "calls": [c]} for c in calls]
+    cases += [{**geo, "ctor": "shared-list", "calls": [c]} for c in calls if c[0] in ("project_edge", "project_side", "face_add_edge")]
     # a side projected with its edges, then one more label on a single edge of it (by corner pair, or through a neighbouring
     # side): the other edges of the first side must keep their single label
     for s in SIDES:
